@@ -370,13 +370,11 @@ class NegativeConditionsRemover(engines.engine.Engine, CompilerMixin):
                 fluent_remover.remove_negative_fluents_from_constraint(tc)
             )
 
+        action_costs_metrics = []
         for qm in problem.quality_metrics:
             if qm.is_minimize_action_costs():
-                new_problem.add_quality_metric(
-                    updated_minimize_action_costs(
-                        qm, new_to_old, new_problem.environment
-                    )
-                )
+                # added after the actions are rebuilt: new_to_old is still empty here
+                action_costs_metrics.append(qm)
             elif qm.is_oversubscription():
                 assert isinstance(qm, Oversubscription)
                 new_problem.add_quality_metric(
@@ -481,6 +479,11 @@ class NegativeConditionsRemover(engines.engine.Engine, CompilerMixin):
                 new_to_old[new_durative_action] = action
             else:
                 raise NotImplementedError
+
+        for qm in action_costs_metrics:
+            new_problem.add_quality_metric(
+                updated_minimize_action_costs(qm, new_to_old, new_problem.environment)
+            )
 
         for t, el in new_problem.timed_effects.items():
             for e in el:
